@@ -694,13 +694,67 @@ func verifC02AuthOp(c *verifC02Cfg, q *verifC02Req) string {
 var (
 	verifC02Actions = []string{"publish", "read", "playback", "api", "metrics", "pprof"}
 	verifC02Protos  = []string{"rtsp", "rtmp", "hls", "webrtc", "srt", "moq"}
-	verifC02Paths   = []string{"cam1", "cam2", "dir/cam1", "live", "~cam"}
+	verifC02Paths   = []string{"cam1", "cam2", "dir/cam1", "live", "~cam", "cam1", "dir/cam1", "/cam1", "cam1/", "/", ".", "./cam1", "cam1.", "dir/cam1/", "//cam1", "dir//cam1"}
 	verifC02CfgPath = []string{"", "cam1", "cam2", "~^cam[0-9]$", "~^dir/", "~(", "live", "~cam"}
 )
+
+// permission paths shaped around the matching rule (empty = any; `~` = regexp; otherwise byte-exact) relative to
+// a requested path: slashes, dots, blanks, wildcards that are NOT wildcards. The path counts exactly as carried.
+func verifC02NearPath(r *verifutil.Rand, p string) string {
+	t := strings.Trim(p, "/.")
+	switch r.Intn(22) {
+	case 0, 1, 2:
+		return "/"
+	case 3:
+		return "/" + p
+	case 4:
+		return p + "/"
+	case 5:
+		return "/" + t
+	case 6:
+		return t + "/"
+	case 7:
+		return t
+	case 8:
+		return "//" + p
+	case 9:
+		return "./" + p
+	case 10:
+		return p + "."
+	case 11:
+		return "." + p
+	case 12:
+		return r.Pick(" ", " "+p, p+" ", "\t")
+	case 13:
+		return r.Pick("*", "/*", p+"*", "**", "%", "#", "+", ".")
+	case 14:
+		return r.Pick("~", "~/", "~^/", "~^/?"+t+"/?$", "~^$", "~.", "~^"+t, "~"+t+"$")
+	case 15:
+		return strings.ToUpper(p)
+	case 16:
+		if len(p) > 1 {
+			return p[:len(p)-1]
+		}
+		return p + p
+	case 17:
+		return r.Pick("..", "../"+p, p+"/..", "/.", "./")
+	case 18:
+		return "~" + p // the literal path behind a tilde: a regexp, not a literal
+	case 19:
+		return "/" + p + "/"
+	default:
+		return p
+	}
+}
 
 func verifC02Perms(r *verifutil.Rand, n int, aim *verifC02Req) []conf.AuthInternalUserPermission {
 	var ps []conf.AuthInternalUserPermission
 	for i := 0; i < n; i++ {
+		if aim != nil && r.Chance(1, 3) { // right action, path shaped around the requested one
+			ps = append(ps, conf.AuthInternalUserPermission{
+				Action: conf.AuthAction(aim.action), Path: verifC02NearPath(r, aim.path)})
+			continue
+		}
 		p := conf.AuthInternalUserPermission{
 			Action: conf.AuthAction(verifC02Actions[r.Intn(6)]),
 			Path:   verifC02CfgPath[r.Intn(len(verifC02CfgPath))],
@@ -793,7 +847,11 @@ func verifC02Token(r *verifutil.Rand, c *verifC02Cfg, q *verifC02Req) string {
 			perms = verifC02Perms(r, 1+r.Intn(2), q)
 			perms = append(perms, conf.AuthInternalUserPermission{Action: conf.AuthAction(q.action), Path: r.Pick("", q.path)})
 		} else {
-			perms = verifC02Perms(r, r.Intn(3), nil)
+			perms = verifC02Perms(r, r.Intn(2), nil)
+			for k := r.Intn(3); k > 0; k-- {
+				perms = append(perms, conf.AuthInternalUserPermission{
+					Action: conf.AuthAction(q.action), Path: verifC02NearPath(r, q.path)})
+			}
 		}
 		arr, _ := json.Marshal(perms)
 		if perms == nil {
@@ -977,7 +1035,7 @@ func verifC02Rotation(r *verifutil.Rand, thorough bool) []string {
 	}
 	action := verifC02Actions[r.Intn(6)]
 	path := r.Pick("cam1", "cam2", "dir/cam1", "live")
-	perms := []conf.AuthInternalUserPermission{{Action: conf.AuthAction(action), Path: r.Pick("", path, path, "~^(cam|dir|live)")}}
+	perms := []conf.AuthInternalUserPermission{{Action: conf.AuthAction(action), Path: r.Pick("", path, path, "~^(cam|dir|live)", "/", "/"+path, path+"/")}}
 	if r.Bool() {
 		perms = append(perms, verifC02Perms(r, 1, nil)...)
 	}
@@ -1179,7 +1237,7 @@ func verifC02Class(op, impl string) string {
 
 func TestVerifC02(t *testing.T) {
 	verifutil.Main(t, &verifutil.Harness{
-		ID: "C02", Exec: verifC02Exec, Gen: verifC02Gen, Quick: 1000, Thorough: 12000,
+		ID: "C02", Exec: verifC02Exec, Gen: verifC02Gen, Quick: 800, Thorough: 12000,
 		Class:      verifC02Class,
 		NonTrivial: func(op, impl string) bool { return strings.HasPrefix(op, "auth") || strings.HasPrefix(op, "racerefresh") },
 	})
